@@ -37,7 +37,7 @@ echo "RESULT demo_clean_rc=$rc_clean suite_rc=$rc_suite demo_patched_rc=$rc_patc
 for prop in "$@"; do
   mkdir -p "$ROOT/replays"
   t0=$(date +%s)
-  VERIF_REPO="$WT" VERIF_DRIVE_ARGS="-no-evidence -replay-dir $ROOT/replays" "$HERE/check" "$prop" ${EVAL_TIER:-quick} >"$ROOT/check.$prop.log" 2>&1; rc=$?
+  VERIF_REPO="$WT" VERIF_DRIVE_ARGS="-first -no-evidence -replay-dir $ROOT/replays ${MUTANT_DRIVE_ARGS:-}" "$HERE/check" "$prop" ${EVAL_TIER:-quick} >"$ROOT/check.$prop.log" 2>&1; rc=$?
   t1=$(date +%s)
   echo "CHECK $prop exit=$rc in $((t1-t0))s: $(grep -m1 '^violation class=' "$ROOT/check.$prop.log" | cut -c1-400)"
   [ $rc -eq 2 ] && tail -5 "$ROOT/check.$prop.log"
